@@ -50,6 +50,7 @@ fn plan(b: &Base, m: Message, now_ns: i128, script: ProvScript) -> Planned {
         permute_pairs: false,
     });
     Planned {
+        body_script: Default::default(),
         origin: Some(b.msg.clone()),
         msg: m,
         node_ix: 0,
